@@ -115,7 +115,9 @@ string table called `.dynstr` / `.strtab2` next to a decoy `.strtab` (x three se
 are reported.  Six more one-point changes in instruction files no sub-agent had touched (SUBS #2 for one value,
 EXTU.L with Z from the low byte, ROTL.L with Z from the low word, SHLR.L keeping N for one value, NOT.L keeping
 V for one value, BST #7,@H'1F:8 not clearing) kept the suite green and were all reported at once by C02 / C03 /
-C04 (a seventh, ROTR.W, turned out to be equivalent).
+C04 (a seventh, ROTR.W, turned out to be equivalent).  A `__write` whose loop counter is narrowed to 16 bits
+(an H8 `int`) was invisible to C14 - the longest write had 4096 bytes; the write unit now also writes H'FFFF,
+H'10000, H'10001 and H'1FFFF bytes from DRAM and reports it.
 """)
     out.append(f"""### 11.1 Round 1 - two changes per property ("needs something specific to manifest")
 
